@@ -17,6 +17,8 @@
 #include <sys/wait.h>
 #include <unistd.h>
 
+extern "C" int __llvm_profile_write_file(void) __attribute__((weak));
+
 namespace sim {
 
 uint64_t fnv(const std::string &s, uint64_t h)
@@ -197,6 +199,9 @@ void Ctx::violate(const std::string &property, const std::string &cls, const std
     send("V\t" + property + "\t" + cls + "\t" + v.sig + "\t" + str(curStep) + "\t" + oneLine(detail));
     if (stopOnViolation) {
         finish();
+        if (__llvm_profile_write_file != nullptr) {
+            __llvm_profile_write_file();
+        }
         _exit(0);
     }
 }
@@ -385,6 +390,9 @@ RunResult runSingle(const Engine &eng, const Plan &plan, const std::map<std::str
         ctx.expected = expected;
         eng.execute(plan, ctx);
         ctx.finish();
+        if (__llvm_profile_write_file != nullptr) {
+            __llvm_profile_write_file(); // coverage flavour only: the child leaves through _exit()
+        }
         _exit(0);
     }
     close(po[1]);
